@@ -100,6 +100,8 @@ Definition not_space (c : Z) : bool := negb (is_space c).
 (* TIMING_LINE_PATTERN = ^(\S+)\s+-->\s+(\S+)(?:\s+(.*?))?\s*$  -> groups 1 and 2.
    Maximal munch is the only way the pattern can match: after a maximal \S+ comes
    whitespace or the end, after a maximal \s+ a non-space; the optional tail always matches. *)
+Definition starts_space (s : str) : bool := match s with c :: _ => is_space c | [] => false end.
+
 Definition vtt_timing_line (line : str) : option (str * str) :=
   let g1 := take_while not_space line in
   let r1 := drop_while not_space line in
@@ -109,7 +111,7 @@ Definition vtt_timing_line (line : str) : option (str * str) :=
   let g2 := take_while not_space r4 in
   match g1, g2 with
   | _ :: _, _ :: _ =>
-      if (length r2 <? length r1)%nat && is_prefix (lit "-->") r2 && (length r4 <? length r3)%nat
+      if starts_space r1 && is_prefix (lit "-->") r2 && starts_space r3
       then Some (g1, g2) else None
   | _, _ => None
   end.
@@ -226,18 +228,30 @@ Definition dfxp_clock (s : str) : option (result Z) :=
   | _, _ => None
   end.
 
+(* the optional fraction group and what follows it *)
+Definition split_frac (r1 : str) : option str * str :=
+  match r1 with
+  | 46 :: r2 => match take_while is_digit r2 with
+                | [] => (None, r1)           (* the fraction group does not match: metric must start here *)
+                | f => (Some f, drop_while is_digit r2)
+                end
+  | _ => (None, r1)
+  end.
+
+(* (h|m|s|ms|f|t)$ : microseconds per unit as unit/div; None inside = the tick metric *)
+Definition metric_conv (metric : str) : option (option (Z * Z)) :=
+  if str_eqb metric (lit "h") then Some (Some (3600000000, 1))
+  else if str_eqb metric (lit "m") then Some (Some (60000000, 1))
+  else if str_eqb metric (lit "s") then Some (Some (1000000, 1))
+  else if str_eqb metric (lit "ms") then Some (Some (1000, 1))
+  else if str_eqb metric (lit "f") then Some (Some (1000000, 30))
+  else if str_eqb metric (lit "t") then Some None
+  else None.
+
 (* value = Fraction(time_count) = (ip*10^k + fp) / 10^k ; int(value * unit) *)
 Definition dfxp_offset (s : str) : option (result Z) :=
   let d1 := take_while is_digit s in
-  let r1 := drop_while is_digit s in
-  let '(fr, metric) :=
-    match r1 with
-    | 46 :: r2 => match take_while is_digit r2 with
-                  | [] => (None, r1)           (* the fraction group does not match: metric must start here *)
-                  | f => (Some f, drop_while is_digit r2)
-                  end
-    | _ => (None, r1)
-    end in
+  let '(fr, metric) := split_frac (drop_while is_digit s) in
   match d1 with
   | [] => None
   | _ =>
@@ -247,14 +261,11 @@ Definition dfxp_offset (s : str) : option (result Z) :=
       | None => Ok (ip, 1)
       | Some f => do fp <- py_int f; Ok (ip * pow10 (length f) + fp, pow10 (length f))
       end in
-    let conv (unit : Z) (div : Z) := do v <- value; Ok (fst v * unit / (snd v * div)) in
-    if str_eqb metric (lit "h") then Some (conv 3600000000 1)
-    else if str_eqb metric (lit "m") then Some (conv 60000000 1)
-    else if str_eqb metric (lit "s") then Some (conv 1000000 1)
-    else if str_eqb metric (lit "ms") then Some (conv 1000 1)
-    else if str_eqb metric (lit "f") then Some (conv 1000000 30)
-    else if str_eqb metric (lit "t") then Some (do v <- value; Err ENotImplemented)
-    else None
+    match metric_conv metric with
+    | None => None
+    | Some None => Some (do v <- value; Err ENotImplemented)
+    | Some (Some (unit, div)) => Some (do v <- value; Ok (fst v * unit / (snd v * div)))
+    end
   end.
 
 Definition dfxp_time (s : str) : result Z :=
